@@ -50,6 +50,16 @@ func (v *VerifInformer) State() (cache map[string]string, buf []kemtypes.KubeEve
 	return
 }
 
+// StateUnlocked reads the same state without taking the locks; only valid while every goroutine that could
+// touch the informer is parked by the harness scheduler (the unlock holds eventBufLock across its replay).
+func (v *VerifInformer) StateUnlocked() (objs []*kemtypes.ObjectAndFilterResult, buf []kemtypes.KubeEvent, enabled bool) {
+	for _, o := range v.ei.cachedObjects {
+		objs = append(objs, o)
+	}
+	buf = append(buf, v.ei.eventBuf...)
+	return objs, buf, v.ei.eventCbEnabled
+}
+
 // VerifMonitor gives access to a monitor created by NewMonitor.
 type VerifMonitor struct{ m *monitor }
 
